@@ -1,5 +1,6 @@
 # Human-written parts of MANIFEST.json, per property.
 ENGINES = [
+    dict(name="E4 p2p", path="harness/t_p2p, harness/votel", serves_properties=["C12", "C16", "C18", "C20"], kind_free_text="in-process libp2p (mocknet) with real servers/clients/pollers/subscribers/chain exchange, raw stream readers, scripted Byzantine responder, OpenTelemetry gauge rendez-vous for the polling loop"),
     dict(name="E6 inputs", path="harness/vec, harness/t_inputs, harness/t_sim", serves_properties=["C15", "C19"], kind_free_text="explicit EC block-tree model behind ec.Backend, manifest/certificate-history generators; simulator fault injection through adversary.Generator"),
     dict(name="E1 vnet", path="harness/vnet, harness/t_net", serves_properties=["C01", "C02", "C03", "C06", "C07"], kind_free_text="consensus world: real participants behind harness hosts, virtual clock, generated scheduler with six profiles, adaptive Byzantine coalition using an evidence pool, runtime monitors, timely closing regime"),
     dict(name="E3 store", path="harness/vds, harness/t_store", serves_properties=["C09", "C10", "C11", "C17"], kind_free_text="deterministic fault-injecting datastore (write counting, crash after k writes, snapshot/restore, permutable query order) + rapid state machines against an in-memory store model"),
@@ -11,6 +12,24 @@ PENDING = "check under construction in this session; will be claimed once its ha
 NOT_APPLICABLE = {("C%02d" % i): PENDING for i in range(1, 21)}
 
 TEXT = {
+    "C16": dict(
+        engine="E4 p2p",
+        technique="property-based testing (rapid) over an in-process libp2p network: raw-stream differential against the store, scripted Byzantine responder vs a poller model",
+        level_text="Generated stores and requests (boundary and overflowing first/limit values) against a real Server, read through a raw stream and through Client.Request, compared byte-for-byte with the store; a scripted Byzantine responder (forged, skipped, repeated, stale, under-quorum, wrong-delta, truncated items, mis-advertised pending instance, several rounds) polled by a real Poller whose store, NextInstance, PowerTable and status must equal a model that validates each wire item with the reference validator.",
+        level_note="mocknet streams; harness signature scheme on both sides. A poller on an empty store starts at instance 0 (NewPoller cannot see the store's first instance), so such stores begin at 0.",
+    ),
+    "C18": dict(
+        engine="E4 p2p",
+        technique="stateful property-based testing (rapid) on a real PubSubChainExchange: validator verdicts per class, retrievability and retention obligations over the history",
+        level_text="Generated histories of lookups, own broadcasts, remote broadcasts of every class pushed through the real pubsub validator and the discovered-chain cache, floods beyond the discovered capacity, prunes and progress changes. Obligations: returned chain has the requested key; just-admitted chain and prefixes retrievable; asked-for-then-admitted chains survive floods while wanted keys fit the wanted capacity (checked only after a flood, so that a lookup cannot mask how admission treated the request); prune removes exactly the lower instances.",
+        level_note="Set semantics plus retention obligations, not an LRU clone. Capacities >= chain length. The synchronous path uses build-time accessors; the pubsub mesh between two hosts is not exercised.",
+    ),
+    "C20": dict(
+        engine="E4 p2p",
+        technique="property-based testing (rapid): single polling rounds vs store advancement; lock-step closed loop of the production run loop on a mock clock vs a shadow predictor",
+        level_text="(1) Real Subscriber polling rounds against real servers with generated production and lagging peers: reported progress == store advancement. (2) The production run loop on a mock clock in lock-step with the harness through the loop's own interval gauge: each wait must equal the interval a shadow production predictor returns for the true store advancement (no extension is due because no mock time passes during requests); under steady production inside [min,max] the settled cadence is within a factor 2 of the period.",
+        level_note="<= 3 peers (beyond that peer sampling uses the global math/rand). The gauge is an existing observation point recorded right after timer.Reset; a missing rendez-vous is inconclusive (exit 2).",
+    ),
     "C11": dict(
         engine="E3 store",
         technique="stateful property-based testing (rapid) on a real directory + enumeration of torn-write offsets, against an in-memory WAL model",
